@@ -32,6 +32,11 @@ func histStorageLine(g *Gen) string {
 		// rules whose first pattern match may come from either a hostname or a URL request
 		return "||" + Pick(g, hostPool) + Pick(g, []string{"^", "/ads", "^$script", "/*", ""})
 	case 5:
+		if g.Chance(1, 3) {
+			// rules every query reaches and whose answer depends on WHAT KIND of name is asked (real addresses are exempt
+			// from $denyallow on hostname requests): nothing learnt about one name may be remembered for the next
+			return Pick(g, []string{"*$denyallow=example.org", "*$denyallow=test.com|tracker.io", "^$denyallow=example.org,important", "@@*$denyallow=evil.org"})
+		}
 		return Pick(g, []string{"/ad[0-9]/", "/ads?/", "/(/", "ad$client=127.0.0.1", "a^b$ctag=device_pc", "*$dnstype=A", "^ad^$client=Mom", "/banner\\d+/$script"})
 	default:
 		return engineRule(g)
@@ -100,6 +105,10 @@ func histOp(g *Gen, lines []string, prev []Req) Req {
 		return r
 	default:
 		r := Req{Kind: "dns", Hostname: Pick(g, append(append([]string{}, hostsNames...), hostPool...))}
+		if g.Chance(1, 6) {
+			// address literals and names that merely look like them, between ordinary names
+			r.Hostname = Pick(g, []string{"203.0.113.7", "1.2.3.4", "::1", "2001:db8::1", "abc.de", "1.2.3", "fe80::", "ads.example.net"})
+		}
 		if g.Chance(1, 4) {
 			p := Pick(g, collidingHosts)
 			r.Hostname = p[g.Intn(2)]
@@ -522,6 +531,17 @@ func init() {
 					at := g.Intn(len(ops) + 1)
 					ops = append(ops[:at], append([]Req{{Kind: "dns", Hostname: a}, {Kind: "dns", Hostname: a + "x", DNSType: 28}}, ops[at:]...)...)
 					ops = append(ops, Req{Kind: "dns", Hostname: b}, Req{Kind: "dns", Hostname: b + "x"})
+					n = len(ops)
+				}
+				if i%2 == 1 {
+					// one lookup that needs an UNREADABLE rule (under an early window of the URL) and then a rule already
+					// materialised through another URL (under a later window): the second is still served
+					tag := fmt.Sprint(i)
+					ls[0].content += "||first-one" + tag + ".test^\n/second-two" + tag + "/$script\n||third" + tag + ".test^$domain=a.org\n"
+					at := g.Intn(len(ops) + 1)
+					ops = append(ops[:at], append([]Req{{Kind: "url", URL: "http://other.test/second-two" + tag + "/x.js", Source: "http://a.org/", Type: 4}}, ops[at:]...)...)
+					ops = append(ops, Req{Kind: "url", URL: "http://first-one" + tag + ".test/second-two" + tag + "/x.js", Source: "http://a.org/", Type: 4},
+						Req{Kind: "url", URL: "http://third" + tag + ".test/second-two" + tag + "/y.js", Source: "http://a.org/", Type: 4})
 					n = len(ops)
 				}
 				kind := Pick(g, []string{"", "fd"})
